@@ -81,7 +81,14 @@ fn one(link_mtu: u16, ipv4: bool, p: u16, peer_payload: Option<usize>) -> Result
 
 pub fn run(ctx: &Ctx) -> Outcome {
     let step = ctx.tier.pick(1usize, 1usize);
-    let mtus: Vec<u16> = (49u16..=1500).step_by(step).collect();
+    let mut mtus: Vec<u16> = (49u16..=1500).step_by(step).collect();
+    // beyond Ethernet: a grid up to the largest value the option accepts, plus the places where 16-bit
+    // arithmetic on two sizes could wrap (sum of floor and ceiling around 65536) and other round numbers
+    let jumbo_step = ctx.tier.pick(509usize, 61usize);
+    mtus.extend((1501u16..=65535).step_by(jumbo_step));
+    mtus.extend([9000u16, 16_383, 16_384, 16_385, 32_767, 32_768, 32_800, 33_000, 40_000, 65_000, 65_055, 65_056, 65_057, 65_534, 65_535]);
+    mtus.sort();
+    mtus.dedup();
     let results: Vec<R> = mtus
         .par_iter()
         .map(|&lm| {
@@ -89,9 +96,18 @@ pub fn run(ctx: &Ctx) -> Outcome {
             for ipv4 in [true, false] {
                 let ss = SegmentSizes::new(SegmentSizesConfig { is_ipv4: ipv4, link_mtu: lm, ..Default::default() });
                 let (lo, hi) = (ss.mss(), ss.max_ss());
-                for p in lo..=hi {
+                // every path limit up to Ethernet size; above it about 48 evenly spaced ones and both ends
+                let stride = if lm <= 1500 { 1 } else { ((hi - lo) as usize / 48).max(1) };
+                let mut limits: Vec<u16> = (lo..=hi).step_by(stride).collect();
+                limits.push(hi);
+                limits.dedup();
+                for p in limits {
                     r.cases += 1;
-                    match one(lm, ipv4, p, None) {
+                    let res = std::panic::catch_unwind(|| one(lm, ipv4, p, None)).unwrap_or_else(|e| {
+                        let msg = e.downcast_ref::<String>().cloned().or_else(|| e.downcast_ref::<&str>().map(|s| s.to_string())).unwrap_or_else(|| "panic".into());
+                        Err(("segsizes/panic".into(), format!("link MTU {lm} {}, path limit {p}: panicked: {msg}", if ipv4 { "IPv4" } else { "IPv6" })))
+                    });
+                    match res {
                         Ok((ops, o)) => {
                             r.ops += ops;
                             r.outcomes.insert(o);
@@ -107,7 +123,11 @@ pub fn run(ctx: &Ctx) -> Outcome {
                 for pp in [1usize, lo as usize, hi as usize, hi as usize + 1, 2000, 16_364] {
                     for p in [lo, hi] {
                         r.cases += 1;
-                        match one(lm, ipv4, p, Some(pp)) {
+                        let res = std::panic::catch_unwind(|| one(lm, ipv4, p, Some(pp))).unwrap_or_else(|e| {
+                            let msg = e.downcast_ref::<String>().cloned().or_else(|| e.downcast_ref::<&str>().map(|s| s.to_string())).unwrap_or_else(|| "panic".into());
+                            Err(("segsizes/panic".into(), format!("link MTU {lm} {}, path limit {p}, peer payload {pp}: panicked: {msg}", if ipv4 { "IPv4" } else { "IPv6" })))
+                        });
+                        match res {
                             Ok((ops, _)) => r.ops += ops,
                             Err((sig, msg)) => {
                                 if r.bad.is_none() {
@@ -136,7 +156,7 @@ pub fn run(ctx: &Ctx) -> Outcome {
         }
     }
     part.distinct_outcomes = outcomes.len() as u64;
-    part.bound = "all link MTUs 49..=1500 x {IPv4, IPv6} x every true path payload limit between the protocol minimum and the link ceiling; plus 6 peer payload sizes x 2 path limits per (MTU, family)".into();
+    part.bound = format!("all link MTUs 49..=1500 x {{IPv4, IPv6}} x every true path payload limit between the protocol minimum and the link ceiling; link MTUs 1501..=65535 in steps of {jumbo_step} plus 15 boundary values x about 48 path limits each; plus 6 peer payload sizes x 2 path limits per (MTU, family)").into();
     part.samples.push(json!({"link_mtu": 1500, "ipv4": true, "path_limit": 1000}));
     part.samples.push(json!({"link_mtu": 700, "ipv4": false, "path_limit": 600, "peer_payload": 2000}));
     out.parts.push(part);
